@@ -82,11 +82,11 @@ Definition bailout_of (n : string) : cmd :=
 Definition mk (n : string) (body : cmd) : prog := mkprog body (handlers_of n) (bailout_of n).
 
 (* ------------------------------------------------------------ fixes *)
-Record fixes := mkfix { fx5 : bool; fx9 : bool; fx10 : bool; fx11 : bool; fx2 : bool; fx12 : bool }.
+Record fixes := mkfix { fx5 : bool; fx9 : bool; fx10 : bool; fx11 : bool; fx2 : bool; fx12 : bool; fx13 : bool }.
 Definition faithful : fixes :=
   mkfix skip_ignores_stale_cconvert header_discards_old_icc decodeyuv_resets_lossless copy_critical_sets_precision_first
-        dest_forgets_newbuffer decodeyuv_resets_marker_flags.
-Definition all_fixed : fixes := mkfix true true true true true true.
+        dest_forgets_newbuffer decodeyuv_resets_marker_flags decodeyuv_ignores_huffman_slots.
+Definition all_fixed : fixes := mkfix true true true true true true true.
 
 (* ------------------------------------------------------------ common pieces *)
 Definition prologue : cmd :=
@@ -152,6 +152,9 @@ Definition read_header (selfc : bool) (own_marker_reset : bool) (faked : bool) :
           CSet (D "unread_marker") (EA "f_um") ;;
           CIf (EA "f_soi") (get_soi ;; CSet (D "marker->saw_SOI") (EC 1)) CSkip ;;
           CIf (EA "f_sof") get_sof CSkip ;;
+          (* tables read before the error stay in the permanent slots (a truncated DHT is completed with the
+             padding the source manager supplies) *)
+          CIf (EA "f_tables") (CSet (D "dc_huff_tbl_ptrs") (EA "img") ;; CSet (D "ac_huff_tbl_ptrs") (EA "img")) CSkip ;;
           (* get_sof may have failed half-way *)
           CSet (D "master->lossless") (EA "lossless") ;; CSet (D "arith_code") (EA "arith") ;;
           CSet (D "progressive_mode") (EA "prog") ;; CSet (D "marker->saw_SOF") (EA "f_sof") ;;
@@ -191,13 +194,14 @@ Definition header_or_tables (selfc : bool) (require_image : bool) (tables_case :
 
 (* --- tj3DecompressHeader ---------------------------------------------------- *)
 Definition icc_wanted : expr := EOr (EEq (P "saveMarkers") (EC 2)) (EEq (P "saveMarkers") (EC 4)).
-Definition prog_header (fx : fixes) (selfc : bool) : prog :=
+Definition prog_header (fx : fixes) (selfc validargs : bool) : prog :=
   mk "tj3DecompressHeader"
      (prologue ;;
-      (* suggested fix for F9: forget the profile of an earlier image on entry *)
-      (if fx9 fx then CSet (T "tempICCSize") (EC 0) else CSkip) ;;
-      throw S_ARGS ;; CSetjmp 0 ;; CSet warning (EA "warn") ;;
+      (* validargs: the caller passes a non-NULL buffer of positive size to a decompression instance *)
+      (if validargs then CSkip else throw S_ARGS) ;; CSetjmp 0 ;; CSet warning (EA "warn") ;;
       mem_src ;;
+      (* F9 fix: an ICC profile extracted from a previous image does not belong to this one *)
+      (if fx9 fx then CSet (T "tempICCSize") (EC 0) else CSkip) ;;
       CIf icc_wanted (CSet (D "marker->save_APP2") (EC 1)) CSkip ;;
       header_or_tables selfc false (CGoto TReturn) ;;
       set_decomp_parameters ;;
@@ -215,10 +219,12 @@ Definition observe_decode_params : cmd :=
             "CCIR601_sampling"; "restart_interval"; "num_components"; "image_width"; "image_height";
             "quant_tbl_ptrs"; "dc_huff_tbl_ptrs"; "ac_huff_tbl_ptrs"]).
 
-Definition master_selection (raw merged : bool) : cmd :=
+Definition master_selection (fx : fixes) (raw merged : bool) : cmd :=
   stage S_START0 ;;
   observe_decode_params ;;
   CSet (D "master->using_merged_upsample") (if raw then EA "merged_obs" else EC (b2z merged)) ;;
+  (* F5 fix: pointers to the previous image's colour converter / quantizer are dropped *)
+  (if fx5 fx then CNull (D "cconvert") ;; CNull (D "cquantize") else CSkip) ;;
   (if raw
    then (* lossless mode disables raw (downsampled) output: the whole pipeline is built *)
      CIf (EG (D "master->lossless"))
@@ -241,9 +247,9 @@ Definition set_progress : cmd :=
   CIf (ENe (P "scanLimit") (EC 0)) (CSet (D "progress") (EA "callid")) (CSet (D "progress") (EC 0)).
 Definition use_progress : cmd := CObs "progress_frame" (EEq (EG (D "progress")) (EIte (ENe (P "scanLimit") (EC 0)) (EA "callid") (EC 0))).
 
-Definition start_decompress (raw merged : bool) : cmd :=
+Definition start_decompress (fx : fixes) (raw merged : bool) : cmd :=
   CIf (ENe (EG gsd) (EC dstate_ready)) CRaise CSkip ;;
-  master_selection raw merged ;;
+  master_selection fx raw merged ;;
   use_progress ;;
   CSet (D "output_scanline") (EC 0) ;;
   CIf (EG (D "raw_data_out")) (CSet gsd (EC dstate_raw_ok)) (CSet gsd (EC dstate_scanning)).
@@ -281,7 +287,7 @@ Definition prog_decompress (fx : fixes) (name : string) (selfc crop merged : boo
       CSet (D "do_fancy_upsampling") (ENot (P "fastUpsample")) ;;
       CSet (D "dct_method") (P "fastDCT") ;;
       CSet (D "scale_num") (P "scalingFactor.num") ;; CSet (D "scale_denom") (P "scalingFactor.denom") ;;
-      start_decompress false merged ;;
+      start_decompress fx false merged ;;
       (if crop then
          CIf (EOr (ENe (P "croppingRegion.x") (EC 0)) (ENe (P "croppingRegion.w") (EC 0)))
              (CDeref (D "main") ;; CDeref (D "upsample") ;; stage S_CROP ;; throw S_CROP) CSkip
@@ -301,7 +307,7 @@ Definition prog_decompress (fx : fixes) (name : string) (selfc crop merged : boo
 (* the wrapper reads the header itself (handler 0) and then calls the planar function with
    global_state = DSTATE_READY, which therefore does not read the header again (handlers 1, 2);
    both bailout blocks abort when global_state > DSTATE_START *)
-Definition prog_decompress_yuv (selfc : bool) : prog :=
+Definition prog_decompress_yuv (fx : fixes) (selfc : bool) : prog :=
   mkprog
      (prologue ;; throw S_ARGS ;;
       CSetjmp 0 ;; CSet warning (EA "warn") ;;
@@ -322,7 +328,7 @@ Definition prog_decompress_yuv (selfc : bool) : prog :=
       CSet (D "do_fancy_upsampling") (ENot (P "fastUpsample")) ;;
       CSet (D "dct_method") (P "fastDCT") ;;
       CSet (D "raw_data_out") (EC 1) ;;
-      start_decompress true false ;;
+      start_decompress fx true false ;;
       stage S_SCAN ;;
       seq (map (fun p => CDeref (D p)) ["comp_info"; "idct"; "coef"; "entropy"]) ;;
       CObs "planes" (EA "img") ;;
@@ -341,7 +347,10 @@ Definition prog_decode_yuv (fx : fixes) (merged : bool) : prog :=
                                    else if String.eqb f "mem->max_memory_to_use" then P "maxMemory"
                                    else if String.eqb f "dct_method" then EC 0
                                    else EC 0))
-               (filter (fun f => negb (String.eqb f "out_color_space" || String.eqb f "dct_method" || String.eqb f "do_fancy_upsampling"))
+               (filter (fun f => negb (String.eqb f "out_color_space" || String.eqb f "dct_method" || String.eqb f "do_fancy_upsampling"
+                                       (* the members the F10 / F12 fixes assign are governed by the fix flags below *)
+                                       || String.eqb f "master->lossless" || String.eqb f "arith_code" || String.eqb f "saw_JFIF_marker"
+                                       || String.eqb f "saw_Adobe_marker" || String.eqb f "Adobe_transform"))
                        decodeyuv_assigned_fields)) ;;
       (if fx10 fx then CSet (D "master->lossless") (EC 0) ;; CSet (D "arith_code") (EC 0) else CSkip) ;;
       (if fx12 fx then CSet (D "saw_JFIF_marker") (EC 0) ;; CSet (D "saw_Adobe_marker") (EC 0) ;; CSet (D "Adobe_transform") (EC 0)
@@ -366,9 +375,13 @@ Definition prog_decode_yuv (fx : fixes) (merged : bool) : prog :=
       CIf (ENe (EG gsd) (EC dstate_ready)) CRaise CSkip ;;
       stage S_START0 ;;
       CSet (D "master->using_merged_upsample") (EC (b2z merged)) ;;
+      (if fx5 fx then CNull (D "cconvert") ;; CNull (D "cquantize") else CSkip) ;;
       (if merged then CAlloc (D "upsample") else CAlloc (D "cconvert") ;; stage S_STARTCC ;; CAlloc (D "upsample")) ;;
       CAlloc (D "post") ;; CAlloc (D "idct") ;; CAlloc (D "entropy") ;; CAlloc (D "coef") ;; CAlloc (D "main") ;;
       CDeref (D "comp_info") ;; CDeref (D "entropy") ;;
+      (* start_input_pass -> entropy start_pass builds the derived tables from the permanent Huffman table slots,
+         which no part of this function (re)defines: whatever an earlier header left there is validated (F13) *)
+      (if fx13 fx then CSkip else CObs "dc_huff_tbl_ptrs" (EG (D "dc_huff_tbl_ptrs")) ;; CObs "ac_huff_tbl_ptrs" (EG (D "ac_huff_tbl_ptrs"))) ;;
       stage S_START ;;
       CDeref (D "upsample") ;;
       CSetjmp 1 ;;
@@ -629,7 +642,7 @@ Definition dname (b : bits) : string := match b with B8 => "tj3Decompress8" | B1
 Inductive opk :=
   | KSet | KSetScaling | KSetCrop | KSetICC
   | KCompress (b : bits) | KCompressYUV | KEncodeYUV
-  | KHeader (selfc : bool)
+  | KHeader (selfc : bool) (validargs : bool)
   | KDecompress (b : bits) (selfc : bool) (crop : bool) (merged : bool)
   | KDecompressYUV (selfc : bool)
   | KDecodeYUV (merged : bool) | KGetICC | KTransformBufSize
@@ -644,9 +657,9 @@ Definition prog_of (fx : fixes) (k : opk) : prog :=
   | KCompress b => prog_compress fx (cname b) (bitsz b)
   | KCompressYUV => prog_compress_yuv fx
   | KEncodeYUV => prog_encode_yuv
-  | KHeader s => prog_header fx s
+  | KHeader s v => prog_header fx s v
   | KDecompress b s c m => prog_decompress fx (dname b) s (match b with B16 => false | _ => c end) m
-  | KDecompressYUV s => prog_decompress_yuv s
+  | KDecompressYUV s => prog_decompress_yuv fx s
   | KDecodeYUV m => prog_decode_yuv fx m
   | KGetICC => prog_get_icc
   | KTransformBufSize => prog_transform_bufsize
@@ -655,7 +668,7 @@ Definition prog_of (fx : fixes) (k : opk) : prog :=
 
 Definition is_selfc (k : opk) : bool :=
   match k with
-  | KHeader s | KDecompress _ s _ _ | KDecompressYUV s | KTransform s => s
+  | KHeader s _ | KDecompress _ s _ _ | KDecompressYUV s | KTransform s => s
   | _ => true
   end.
 
@@ -724,7 +737,7 @@ Definition prog_fields (p : prog) : list fld :=
 Definition hist_fields (fx : fixes) : list fld :=
   flat_map (fun k => prog_fields (prog_of fx k))
            [KSet; KSetScaling; KSetCrop; KSetICC; KCompress B8; KCompress B12; KCompress B16; KCompressYUV; KEncodeYUV;
-            KHeader false; KDecompress B8 false true false; KDecompress B12 false true false; KDecompress B16 false false false;
+            KHeader false false; KDecompress B8 false true false; KDecompress B12 false true false; KDecompress B16 false false false;
             KDecompressYUV false; KDecodeYUV false; KGetICC; KTransformBufSize; KTransform false].
 
 Fixpoint dedup (l acc : list fld) : list fld :=
